@@ -25,6 +25,12 @@ POSITIONS = [
     ('with', 'with cm(1):\n{B1}', False),
     ('match-case', 'match 1:\n case 1:\n{B2}', False),
     ('def-in-if', 'if flag:\n def f():\n{B2}\n obs(f())', True),
+    # scopes in which `object` is a parameter / local of some kind (the base-class rewrite must leave them alone)
+    ('def-object-kwonly', 'def f(*,object=Exception):\n{B1}\nobs(f())', True),
+    ('def-object-posonly', 'def f(object=Exception,/):\n{B1}\nobs(f())', True),
+    ('def-object-vararg', 'def f(*object):\n object=Exception\n{B1}\nobs(f())', True),
+    ('except-as-object', 'try:\n raise KeyError(1)\nexcept KeyError as object:\n object=Exception\n{B1}', False),
+    ('for-object', 'for object in (Exception,):\n{B1}', False),
 ]
 
 # statement forms: (name, text, needs function?)
@@ -69,6 +75,9 @@ PREAMBLES = [
     ('uses-doc-name', "'module docstring'\nobs(__doc__)\n"),
     ('uses-doc-attr', "'module docstring'\nimport os as om_\nobs(om_.__doc__ is None)\n"),
     ('module-docstring', "'module docstring'\n"),
+    ('augments-doc', "'module docstring'\n__doc__+=' more'\n"),
+    ('assigns-doc', "'module docstring'\n__doc__=__doc__.upper()\n"),
+    ('deletes-doc', "'module docstring'\ndel __doc__\n"),
 ]
 
 
@@ -88,6 +97,8 @@ def programs(tier):
     for pos in POSITIONS:
         infn = pos[2]
         usable = [n for n in names if infn or not STMT_D[n][1]]
+        if 'object' in pos[0]:
+            usable = [n for n in usable if n.startswith('class-') or n in ('pass', 'real')]
         for n in usable:
             yield 'stmt:%s:%s' % (pos[0], n), build(pos, [n])
         for a, b in itertools.product(usable, repeat=2):
@@ -99,9 +110,12 @@ def programs(tier):
     for cname, hdr in (('dataclass', 'import dataclasses\n@dataclasses.dataclass\nclass D:\n'), ('dataclass-call', 'import dataclasses\n@dataclasses.dataclass(frozen=True)\nclass D:\n'),
                        ('dataclass-name', 'from dataclasses import dataclass\n@dataclass\nclass D:\n'),
                        ('namedtuple', 'import typing\nclass D(typing.NamedTuple):\n'), ('typeddict', 'from typing import TypedDict\nclass D(TypedDict):\n'),
+                       ('dataclass-second', 'import dataclasses,functools\n@functools.total_ordering\n@dataclasses.dataclass\nclass D:\n def __lt__(self,o):return False\n'),
+                       ('dataclass-first-of-two', 'import dataclasses\n@dataclasses.dataclass\n@ident\nclass D:\n'),
+                       ('namedtuple-second-base', 'import typing\nclass M:pass\nclass D(M,typing.NamedTuple):\n') if False else ('typeddict-total', 'import typing\nclass D(typing.TypedDict,total=False):\n'),
                        ('plain-class', 'class D:\n'), ('enum-like', 'import enum\nclass D(enum.Enum):\n')):
         for body in (' x:int=1\n y:str="s"', ' x:int\n y:str="s"', " 'doc'\n x:int=1", ' x:int=1\n def m(self)->int:\n  z:int=self.x\n  return z'):
-            yield 'stmt:annfield:%s:%s' % (cname, body.replace('\n', ';')), hdr + body + '\nobs(D.__mro__[1:])\n'
+            yield 'stmt:annfield:%s:%s' % (cname, body.replace('\n', ';')), hdr + body + '\nobs(D.__mro__[1:])\nobs(sorted(getattr(D,"__dataclass_fields__",getattr(D,"_fields",())) or getattr(D,"__required_keys__",()) or getattr(D,"__optional_keys__",())))\n'
     for pre_name, pre in PREAMBLES[1:]:
         for pos in POSITIONS[:5]:
             infn = pos[2]
